@@ -24,7 +24,8 @@ RULE = (
     "oracle overlap) x vendor encoding in {standard, ORCA, PSI4<=1.0, Turbomole, CFOUR 2.1, "
     "un-normalised contractions, PSI4<=1.3.2} (inverse of the documented deviations, pinned golden "
     "copy) x {Molden, Molekel} x coordinate unit x norm_threshold in 1e-6..1e-2; plus corrupted "
-    "encodings (per-function random scalings matching no vendor). Oracle: loaded orbitals equal "
+    "encodings (per-function random scalings matching no vendor, applied to all spin blocks or to "
+    "one of them only). Oracle: loaded orbitals equal "
     "the truth as functions of space (oracle E) and are orthonormal w.r.t. the returned basis "
     "(oracle O); a LoadWarning is emitted iff the encoded file differs from the standard file; "
     "corrupted files raise LoadError or load to the truth. Non-trivial = encoded text differs "
@@ -64,8 +65,12 @@ def corrupted_text(mod, model, seed):
     factors = rng.choice([0.5, 0.7, 1.0, 1.3, 2.0], size=nrow)
     if np.all(factors == 1.0):
         factors[0] = 1.7
-    for s in wf["spins"]:
-        s["coeffs"] = s["coeffs"] * factors[:, None]
+    # corrupt every spin block, or only one of them (an unrestricted file whose alpha and beta
+    # blocks are encoded inconsistently matches no vendor either)
+    which = int(rng.integers(0, 3)) if len(wf["spins"]) > 1 else 0
+    for ispin, s in enumerate(wf["spins"]):
+        if which == 0 or ispin == which - 1:
+            s["coeffs"] = s["coeffs"] * factors[:, None]
     new["wf"] = wf
     new["boost"] = True
     return mod.write(new)
